@@ -181,7 +181,20 @@ class World:
             return ("ok", None)
         k2, b = lib.call(lambda: v.cssText)
         proj = P.p_sheet(v) if hasattr(v, "cssRules") else P.p_style(v)
-        return ("ok", proj, k2, b if k2 == "ok" else lib.ename(b))
+
+        def validity(c):
+            # what the parser's validate option decided: part of the result
+            out = []
+            for r in getattr(c, "cssRules", []):
+                st = getattr(r, "style", None)
+                if st is not None:
+                    out.append((st.validating, tuple(p.valid for p in st.getProperties(all=True))))
+                if hasattr(r, "cssRules"):
+                    out.extend(validity(r))
+            return out
+
+        val = (getattr(v, "validating", None), tuple(validity(v)) if hasattr(v, "cssRules") else tuple(p.valid for p in v.getProperties(all=True)))
+        return ("ok", proj, k2, b if k2 == "ok" else lib.ename(b), val)
 
     def live_fetch(self, url):
         """one stable callable given to long-lived parsers; what it answers changes between uses"""
@@ -240,7 +253,17 @@ class World:
         if k == "parse_style":
             data = op["text"] if "text" in op else bytes.fromhex(op["hex"])
             parser, reused = self.parser_for(op)
-            kk, v = self.bracket(k, lambda: parser.parseStyle(data))
+            kw = {} if op.get("validate") is None else {"validate": op["validate"]}
+            kk, v = self.bracket(k, lambda: parser.parseStyle(data, **kw))
+            if reused:
+                # oracle 3 for style attributes: per-call arguments do not stick to the parser
+                fresh = cu.CSSParser(raiseExceptions=parser._opts[0], parseComments=parser._opts[1], validate=parser._opts[2])
+                k2, v2 = lib.call(lambda: fresh.parseStyle(data, **kw))
+                self.stats["oracle"] += 1
+                a, b = self.result_of(kk, v), self.result_of(k2, v2)
+                if a != b:
+                    raise Viol("parser_reuse", "reuse:parseStyle", f"use #{parser._uses} of a parser gave {a!r}, a fresh parser {b!r} on {data!r} {kw}")
+                parser._uses += 1
             return "ok" if kk == "ok" else lib.ename(v)
         if k == "parse_file":
             path = os.path.join(self.scratch(), op["name"])
@@ -491,7 +514,7 @@ def gen_op(r, w, i):
             base.update(hex=r.choice(UNDECODABLE))
         else:
             base.update(text=G.decl_block(r, bad=bad))
-        base.update(via=via)
+        base.update(via=via, validate=r.choice([None, None, True, False]))
         if via == "fresh":
             base.update({"raise": r.random() < cfg["fault_rate"]})
         return base
